@@ -243,6 +243,9 @@ func c02Adversary(r *kernel.Run, tp *kernel.Tape, w *Wire, srv *World, loader bo
 	switch certKind {
 	case "own":
 		adv.chain, adv.key, adv.holdsKey = [][]byte{bundle.CertificateDer, bundle.CaCertificateDer}, me.id.Priv, true
+		if tp.Draw(3) == 0 {
+			claim = victim // a valid certificate of its own, but the request names (and replays) another node's key
+		}
 	case "stolen-leaf":
 		claim = victim
 		vb := victim.creds.CertificateBundles[tp.Draw(2)]
